@@ -765,11 +765,25 @@ func (s *Searcher) fetchRRCs() (*iqr.IQR, error) {
 	// RRCs up to that time; if we returned records past that time, then we
 	// can't guarantee the records we return are in the correct order
 	// considering ALL data we have.
+	//
+	// Once every segment has given its blocks and these are the last of them,
+	// nothing can arrive any more that would have to be returned first, so all
+	// the RRCs kept back so far can be returned. A block that reaches past the
+	// time range its segment advertises (the segment was adopted after a crash
+	// from a meta file older than its last block) leaves RRCs beyond the last
+	// cut-off; holding them back would keep the search running forever.
+	lastBlocks := s.gotAllSegments && len(nextBlocks) == len(s.remainingBlocksSorted)
 	switch s.sortMode {
 	case recentFirst:
 		endTime = max(endTime, s.cutOffTimestampInMs)
+		if lastBlocks {
+			endTime = 0
+		}
 	case recentLast:
 		endTime = min(endTime, s.cutOffTimestampInMs)
+		if lastBlocks {
+			endTime = math.MaxUint64
+		}
 	case anyOrder:
 		// Do nothing.
 	}
